@@ -30,7 +30,47 @@ type Case struct {
 	// columns larger than the alphabet (legal; the extra cells hold 55); "rewritten" a matrix value that
 	// earlier alignments of the run used with other contents, rewritten in place (a parameter sweep).
 	Handed string `json:"handed,omitempty"`
-	use    [][]int
+	// After, when set, is a call that the aligner must REJECT, made on the same goroutine directly before
+	// each of the two alignments of the case: "ref:<R>|<Q>" / "qry:<R>|<Q>" sequences with a letter outside
+	// the alphabet ('x'); "ragged:<i>" a matrix whose rows are the rows of the case's own matrix value, row
+	// i one entry short; "mixed" a plain reference with a quality query; "alphabet" two alphabet objects.
+	After string `json:"after,omitempty"`
+	use   [][]int
+}
+
+// reject makes the rejected call of k.After (whatever it leaves behind - pooled tables, cached
+// matrices - must not be seen by the ordinary call that follows).  A panic or a missing error is the
+// business of the ill-typed family, not of this one.
+func reject(k Case, ql bool) {
+	if k.After == "" {
+		return
+	}
+	defer func() { recover() }()
+	kind, arg := k.After, ""
+	if i := strings.IndexByte(k.After, ':'); i >= 0 {
+		kind, arg = k.After[:i], k.After[i+1:]
+	}
+	kk := k
+	kk.use = k.handed()
+	var ref, qry align.AlphabetSlicer = seqOf(k.Letters, "aca", ql), seqOf(k.Letters, "ca", ql)
+	switch kind {
+	case "ref", "qry":
+		w := strings.SplitN(arg, "|", 2)
+		ref, qry = seqOf(k.Letters, w[0], ql), seqOf(k.Letters, w[1], ql)
+	case "ragged":
+		i := int(arg[0] - '0')
+		m := append([][]int{}, kk.use...)
+		if i < len(m) && len(m[i]) > 0 {
+			m[i] = m[i][:len(m[i])-1]
+		}
+		kk.use = m
+	case "mixed":
+		qry = seqOf(k.Letters, "ca", !ql)
+	case "alphabet":
+		a2, _ := alphabet.NewAlphabet(k.Letters, feat.DNA, alphabet.Letter(k.Letters[0]), 'n', true)
+		qry = linear.NewSeq("q", alphabet.BytesToLetters([]byte("ca")), a2)
+	}
+	mkAligner(kk).Align(ref, qry)
 }
 
 // handed returns the matrix value given to the aligner.
@@ -282,6 +322,7 @@ func evaluate(k Case) (out []finding) {
 		}
 	}()
 	al := mkAligner(k)
+	reject(k, false)
 	ps, err := al.Align(seqOf(k.Letters, k.R, false), seqOf(k.Letters, k.Q, false))
 	if err != nil {
 		add("C09", "error-on-valid-input", "Align(%q,%q) = %v", k.R, k.Q, err)
@@ -366,6 +407,7 @@ func evaluate(k Case) (out []finding) {
 	}
 	optimal(segs, total, sum, a1, "")
 	// quality letters give the same pairs
+	reject(k, true)
 	qps, err := al.Align(seqOf(k.Letters, k.R, true), seqOf(k.Letters, k.Q, true))
 	if err != nil {
 		add("C09", "qletters-error", "quality-letter variant: %v", err)
@@ -618,6 +660,50 @@ func run(c *enum.Ctx, prop string) {
 				}
 			}
 		}
+	}
+	// an ordinary call directly after a REJECTED one, on one goroutine (what a failed call leaves in a
+	// pool or a cache is handed to the next caller): every rejection x every word pair x a few matrices
+	{
+		var rejs []string
+		for _, w := range []string{"xca", "axa", "acx", "acacx", "xcaca"} {
+			for _, o := range []string{"a", "ac", "acac"} {
+				rejs = append(rejs, "ref:"+w+"|"+o, "qry:"+o+"|"+w)
+			}
+		}
+		rejs = append(rejs, "ragged:0", "ragged:1", "ragged:2", "mixed", "alphabet")
+		var after [][][]int
+		for i := 0; i < len(mats); i += len(mats)/3 + 1 {
+			after = append(after, mats[i])
+		}
+		after = append(after, mats[len(mats)-1], mats[len(mats)-7], [][]int{{0, -1, -1}, {-1, 1, -1}, {-1, -1, 1}})
+		if c.Quick {
+			after = after[len(after)-3:]
+		}
+		n := 0
+		for _, M := range after {
+			for _, al := range aligners {
+				for _, rj := range rejs {
+					for _, r := range words {
+						for _, q := range words {
+							if len(r) > 3 || len(q) > 3 {
+								continue
+							}
+							// a matrix value of its own: the rejected call is the first to see its storage
+							fresh := make([][]int, len(M))
+							for i := range M {
+								fresh[i] = append([]int(nil), M[i]...)
+							}
+							k := Case{Aligner: al, R: r, Q: q, Letters: def, M: M, Open: -1, After: rj, use: fresh}
+							c.Doing(0, k)
+							c.Eval()
+							report(c, prop, k, evaluate(k))
+							n++
+						}
+					}
+				}
+			}
+		}
+		c.Set("calls_after_a_rejected_call", n)
 	}
 	// four-letter alphabet, short sequences
 	def4 := "-acg"
